@@ -180,19 +180,33 @@ fn instr_of(a: &syn::Attribute) -> Option<(String, proc_macro2::TokenStream)> {
         _ => None,
     }
 }
-fn rewrite_attrs(attrs: &mut Vec<syn::Attribute>, mode: &str) {
+fn rewrite_attrs(attrs: &mut Vec<syn::Attribute>, mode: &str, level: &str) {
     let old = std::mem::take(attrs);
     let mut pending: Vec<proc_macro2::TokenStream> = vec![];   // for "group": adjacent instructions merged into one #[o2o(...)]
     let flush = |pending: &mut Vec<proc_macro2::TokenStream>, attrs: &mut Vec<syn::Attribute>| {
         if !pending.is_empty() { let items = std::mem::take(pending); attrs.push(syn::parse_quote!(#[o2o(#(#items),*)])); }
     };
+    // an instruction is respelled only where it is valid at the level where it stands: a bare misplaced name is by definition a foreign attribute
+    let trait_names = |n: &str| basics(n).is_some() || ["owned_into","ref_into","from_owned","from_ref","owned_into_existing","ref_into_existing","owned_try_into","ref_try_into","try_from_owned","try_from_ref","owned_try_into_existing","ref_try_into_existing"].contains(&n);
+    let member_map = |n: &str| trait_names(n) && !n.ends_with("try_into_existing");
+    let valid_here = |n: &str| match level {
+        "type" => trait_names(n) || ["ghosts", "where_clause", "child_parents"].contains(&n),
+        "field" => member_map(n) || ["ghost", "child", "parent"].contains(&n),
+        _ => member_map(n) || ["ghost", "ghosts", "literal", "pattern", "type_hint"].contains(&n),
+    };
     for a in old {
-        match (instr_of(&a), mode) {
+        let io = instr_of(&a).filter(|(n, _)| mode == "writeout" || valid_here(n));
+        match (io, mode) {
             (Some((n, args)), "respell") => { let id = quote::format_ident!("{}", n); attrs.push(syn::parse_quote!(#[o2o(#id #args)])); }
             (Some((n, args)), "group") => { let id = quote::format_ident!("{}", n); pending.push(quote::quote!(#id #args)); }
             (Some((n, args)), "writeout") => {
                 let repeat_param = args.to_string().contains("repeat");
-                match basics(&n) { Some(bs) if !repeat_param => for b in bs { let id = quote::format_ident!("{}", b); attrs.push(syn::parse_quote!(#[#id #args])); }, _ => attrs.push(a) }
+                match basics(&n) {
+                    Some(bs) if !repeat_param => for b in bs { let id = quote::format_ident!("{}", b); attrs.push(syn::parse_quote!(#[#id #args])); },
+                    // ghost / ghosts abbreviate their _owned + _ref pair (which have no bare form)
+                    None if (n == "ghost" && level != "type") || (n == "ghosts" && level != "field") => for suf in ["owned", "ref"] { let id = quote::format_ident!("{}_{}", n, suf); attrs.push(syn::parse_quote!(#[o2o(#id #args)])); },
+                    _ => attrs.push(a)
+                }
             }
             (_, _) => { flush(&mut pending, attrs); attrs.push(a); }
         }
@@ -201,10 +215,10 @@ fn rewrite_attrs(attrs: &mut Vec<syn::Attribute>, mode: &str) {
 }
 fn rewrite(src: &str, mode: &str) -> Option<String> {
     let mut di: syn::DeriveInput = syn::parse_str(src).ok()?;
-    rewrite_attrs(&mut di.attrs, mode);
+    rewrite_attrs(&mut di.attrs, mode, "type");
     match &mut di.data {
-        syn::Data::Struct(s) => for f in s.fields.iter_mut() { rewrite_attrs(&mut f.attrs, mode); },
-        syn::Data::Enum(e) => for v in e.variants.iter_mut() { rewrite_attrs(&mut v.attrs, mode); for f in v.fields.iter_mut() { rewrite_attrs(&mut f.attrs, mode); } },
+        syn::Data::Struct(s) => for f in s.fields.iter_mut() { rewrite_attrs(&mut f.attrs, mode, "field"); },
+        syn::Data::Enum(e) => for v in e.variants.iter_mut() { rewrite_attrs(&mut v.attrs, mode, "variant"); for f in v.fields.iter_mut() { rewrite_attrs(&mut f.attrs, mode, "field"); } },
         _ => {}
     }
     Some(ts(&di))
